@@ -144,6 +144,13 @@ Theorem C07_wrappers_every_keyword : forall r, In r wrappers ->
 Proof. exact wrappers_every_keyword. Qed.
 Print Assumptions C07_wrappers_every_keyword.
 
+(* the signatures list their parameters in the documented order (module functions: sources, observers, sumup, squeeze,
+   pixel_agg, output, in_out -- all positional; methods: the keyword-only flags), the same for B, H, J, M *)
+Theorem C07_wrappers_param_order : forall r, In r wrappers ->
+  map fst (w_params r) = documented_params (w_owner r).
+Proof. exact wrappers_param_order. Qed.
+Print Assumptions C07_wrappers_param_order.
+
 (* ---- the model of getBH_dict_level2 against the TRANSLATED statements of the function (Gen/GenDictArith.v) ---- *)
 (* all statements of getBH_dict_level2, in source order, are the reviewed ones *)
 Theorem C07_dict_statements_reviewed : dict_arith = expected_dict_arith.
